@@ -79,6 +79,53 @@ func mkDesc(sp descSpec) scte35.SegmentationDescriptor {
 	return d
 }
 
+// mkDescN = mkDesc plus "noise": fields that the closing relation, the classification and Equal must not depend on
+// (C19: "depends only on types, event ids, PTS values and segment numbers"), chosen by the bits of n and set through
+// the public setters.  The model ignores n (Exec/SegExec.v seg.close1n / seg.eqn).
+func mkDescN(sp descSpec, n uint64) scte35.SegmentationDescriptor {
+	d := mkDesc(sp)
+	if n&1 != 0 {
+		d.SetIsEventCanceled(true)
+	}
+	if n&2 != 0 {
+		d.SetHasDuration(true)
+		d.SetDuration(gots.PTS(n * 7919 % (1 << 40)))
+	}
+	if n&4 != 0 && !sp.hasvss {
+		d.SetUPIDType(scte35.SegUPIDURN)
+		d.SetUPID([]byte(fmt.Sprintf("urn:noise:%d", n)))
+	}
+	if n&8 != 0 {
+		d.SetHasProgramSegmentation(false)
+		c1, c2 := scte35.CreateComponentOffset(), scte35.CreateComponentOffset()
+		c1.SetComponentTag(uint8(n))
+		c1.SetPTSOffset(gots.PTS(n * 31))
+		c2.SetComponentTag(uint8(n >> 3))
+		d.SetComponents([]scte35.ComponentOffset{c1, c2})
+	}
+	if n&16 != 0 && !sp.hasvss {
+		d.SetIsDeliveryNotRestricted(false)
+		d.SetIsWebDeliveryAllowed(n&32 != 0)
+		d.SetIsArchiveAllowed(n&64 != 0)
+		d.SetHasNoRegionalBlackout(n&128 != 0)
+		d.SetDeviceRestrictions(scte35.DeviceRestrictions(n >> 8 & 3))
+	}
+	sig := d.SCTE35()
+	if n&256 != 0 {
+		sig.SetTier(uint16(n>>4) & 0xFFF)
+		sig.SetAlignmentStuffing(uint(n >> 9 & 3))
+	}
+	if n&512 != 0 {
+		// the descriptor is not the only one of its signal: another one in front and one behind
+		x, y := scte35.CreateSegmentationDescriptor(), scte35.CreateSegmentationDescriptor()
+		x.SetTypeID(scte35.SegDescType(0x30))
+		x.SetEventID(uint32(n))
+		y.SetTypeID(scte35.SegDescType(0x35))
+		sig.SetDescriptors([]scte35.SegmentationDescriptor{x, d, y})
+	}
+	return d
+}
+
 // view = every getter the C19/C10 functions read; used to detect mutation of arguments
 func descView(d scte35.SegmentationDescriptor) string {
 	id, err := d.StreamSwitchSignalId()
@@ -157,5 +204,32 @@ func init() {
 	})
 	register("seg.close1", func(a []Val) Val {
 		return VBool(mkDesc(specOfVal(a[0])).CanClose(mkDesc(specOfVal(a[1]))))
+	})
+	// seg.close1n d o nd no: CanClose with noise nd / no on the two descriptors; also IsIn / IsOut of both
+	register("seg.close1n", func(a []Val) Val {
+		if len(a) != 4 {
+			return VBad()
+		}
+		d, o := mkDescN(specOfVal(a[0]), a[2].U()), mkDescN(specOfVal(a[1]), a[3].U())
+		return VL(VBool(d.CanClose(o)), VBool(d.IsIn()), VBool(d.IsOut()), VBool(o.IsIn()), VBool(o.IsOut()))
+	})
+	// seg.eqn [n0 n1 ..] d0 d1 ..: the Equal matrix of descriptors built with noise
+	register("seg.eqn", func(a []Val) Val {
+		if len(a) < 1 || len(a[0].L) != len(a)-1 {
+			return VBad()
+		}
+		ds := make([]scte35.SegmentationDescriptor, len(a)-1)
+		for i := range ds {
+			ds[i] = mkDescN(specOfVal(a[i+1]), a[0].L[i].U())
+		}
+		rows := make([]Val, 0, len(ds))
+		for i := range ds {
+			row := make([]Val, len(ds))
+			for j := range ds {
+				row[j] = VBool(ds[i].Equal(ds[j]))
+			}
+			rows = append(rows, VL(row...))
+		}
+		return VL(rows...)
 	})
 }
